@@ -4,6 +4,7 @@ from __future__ import annotations
 import copy
 import itertools
 import math
+import os
 
 import numpy as np
 
@@ -36,7 +37,7 @@ ASSUMPTIONS = [
     "sampled, not enumerated (the exhaustive-up-to-a-bound part of the quantifier would be model checking)",
     "line-level interleaving of planner jobs switches threads only at Python line boundaries inside flox frames (not inside a NumPy call)",
 ]
-PROBES = ["planner_jobs_preempted_linewise", "planner_threadpool_branch", "planner_serial_branch", "planner_jobs_reordered", "planner_prefers_cohorts",
+PROBES = ["planner_more_jobs_than_pool_workers", "planner_jobs_preempted_linewise", "planner_threadpool_branch", "planner_serial_branch", "planner_jobs_reordered", "planner_prefers_cohorts",
           "planner_prefers_blockwise", "planner_prefers_mapreduce", "planner_merged_by_containment", "labels_2d",
           "closure_cohorts", "closure_blockwise", "conservation_crash", "conservation_dup", "cohorts_multi"]
 
@@ -44,7 +45,13 @@ PROBES = ["planner_jobs_preempted_linewise", "planner_threadpool_branch", "plann
 def gen(tape: Tape, tier: str) -> dict:
     layer = tape.choice("gen.layer", ["planner", "planner", "closure", "conserve", "conserve"])
     ndim = 2 if (layer == "planner" and tape.chance("gen.2d", 0.3)) else 1
-    if ndim == 1:
+    many = layer == "planner" and ndim == 1 and tape.chance("gen.manychunks", 0.3)
+    if many:
+        # more chunks than a default thread pool has workers (cpu_count + 4), first chunk large enough for the
+        # planner to take its thread-pool branch (nlabels < 2 * size of the first chunk)
+        n = tape.randint("gen.n.many", 30, 72)
+        shape = [n]
+    elif ndim == 1:
         # 2 * sum(3**i, i<32) < 2**53: group sums stay exact even where a kernel accumulates in float64
         n = tape.randint("gen.n", 2, 32)
         shape = [n]
@@ -60,6 +67,15 @@ def gen(tape: Tape, tier: str) -> dict:
             if tape.chance("gen.miss1", 0.15):
                 flat[i] = -1
     chunks = [gen_chunks(tape, s, max_blocks=12) for s in shape]
+    if many:
+        first = tape.randint("gen.many.first", 4, 10)
+        rest = n - first
+        tail = []
+        while rest > 0:
+            c = min(rest, tape.choice("gen.many.c", [1, 1, 1, 2]))
+            tail.append(c)
+            rest -= c
+        chunks = [[first] + tail]
     case = {
         "kind": "planner" if layer == "planner" else layer,
         "codes": enc_array(codes),
@@ -69,7 +85,7 @@ def gen(tape: Tape, tier: str) -> dict:
     if layer == "planner":
         case["merge"] = bool(tape.chance("gen.merge", 0.5))
         # line-level pre-emption between the planner's thread-pool jobs (all planner runs in thorough, a quarter in quick)
-        case["preempt"] = bool(tier == "thorough" or tape.chance("gen.preempt", 0.25))
+        case["preempt"] = bool(tier == "thorough" or many or tape.chance("gen.preempt", 0.25))
         case["expected"] = tape.choice("gen.expected", ["none", "exact", "bigger"])
         case["extra_lead_chunks"] = None
     else:
@@ -148,6 +164,7 @@ def run_planner(case, tape, ctx):
     ctx.probe("planner_threadpool_branch", pst["jobs"] > 0)
     ctx.probe("planner_serial_branch", pst["jobs"] == 0 and nblocks > 1)
     ctx.probe("planner_jobs_reordered", pst["reordered"] > 0)
+    ctx.probe("planner_more_jobs_than_pool_workers", pst["jobs"] > (os.cpu_count() or 1) + 4)
     ctx.probe("planner_jobs_preempted_linewise", pst.get("switches", 0) > 0)
     ctx.count("planner_line_steps", pst.get("steps", 0))
     if preempt and pst["jobs"] > 1:
